@@ -306,7 +306,8 @@ func (p *Parser) Parse() (ast.Statement, error) {
 func (p *Parser) ParseSnippetVCL() ([]ast.Statement, error) {
 	var statements []ast.Statement
 
-	for !p.PeekTokenIs(token.EOF) {
+	// Every token up to EOF belongs to a statement, a last lone token must not be dropped
+	for !p.CurTokenIs(token.EOF) {
 		var stmt ast.Statement
 		var err error
 
@@ -363,7 +364,7 @@ func (p *Parser) ParseSnippetVCL() ([]ast.Statement, error) {
 				stmt, err = p.ParseGotoDestination()
 			}
 		default:
-			err = UnexpectedToken(p.peekToken)
+			err = UnexpectedToken(p.curToken)
 		}
 
 		if err != nil {
